@@ -113,6 +113,18 @@ def run_case(case, ctx):
 
 
 def query_event(c, case, ctx, phase):
+    try:
+        ev = _query_event(c, case, ctx, phase)
+        ev["exc"] = ""
+        return ev
+    except (Exception, RecursionError) as e:       # a query that raises (or never returns) is a verdict, not a harness failure
+        from ..proj import proj as _proj
+
+        p = _proj(c)
+        return {"kind": "graph", "c": p, "exc": type(e).__name__, "nontrivial": True, "q": [], "cyclic": False}
+
+
+def _query_event(c, case, ctx, phase):
     import circuitgraph as cg
 
     p = proj(c)  # re-project: topological index order when acyclic
